@@ -918,6 +918,10 @@ func (r *Run) checkReply(c Cmd, pred Pred, rm map[string]any, p *Proc, post *Obs
 		if str(rm, "agent_id") != c.Agent {
 			bad("agent_id", "reported agent_id %q", str(rm, "agent_id"))
 		}
+		if str(rm, "agent_id") != oi.ClaimedBy {
+			// the claimant the reply names is the claimant the next read shows
+			bad("claimant", "reported agent_id %q, show says claimed_by %q", str(rm, "agent_id"), oi.ClaimedBy)
+		}
 		if str(rm, "state") != oi.State {
 			bad("state", "reported state %q, show says %q", str(rm, "state"), oi.State)
 		}
